@@ -3,8 +3,7 @@ import os, sys
 sys.path.insert(0, os.path.dirname(os.path.dirname(os.path.abspath(__file__))))
 from common_texts import COMMON_NOTE
 
-CLAIMED = False
-REASON = "C13 under construction"
+CLAIMED = True
 
 
 def c13_nontrivial(case, v):
@@ -17,7 +16,8 @@ def c13_nontrivial(case, v):
 
 
 PROP = dict(
-    proof_modules=["VrpProofs.C13"], model_modules=["VrpModel.C13"], drv="drv_c13", bin="c13",
+    proof_modules=["VrpProofs.C13", "VrpProofs.C13.Basic", "VrpProofs.C13.Solomon", "VrpProofs.C13.Capacity",
+                   "VrpProofs.C13.Tsplib", "VrpProofs.C13.Lilim", "VrpProofs.C13.Capacity2", "VrpProofs.C13.Init"], model_modules=["VrpModel.C13"], drv="drv_c13", bin="c13",
     nontrivial=c13_nontrivial,
     rule="sol/lil/tsp: well-formed generated file with >= 3 customers for which the generated tours contain at least one that "
          "the file's capacity accepts and one that it rejects; init/initread: solution text with >= 2 non-empty routes; "
